@@ -35,7 +35,9 @@ CHECKS = {
               "on every instance cell (injected by a hook-free wrapper floor planner identically into MockProver and "
               "the real prover), records MockProver::verify and real create_proof+verify; TLC recomputes Satisfied "
               "from the extracted system for each faulted assignment and a line is consumed only if BOTH verdicts "
-              "equal it (so unused-cell faults must be accepted and every isolated class violation rejected)."),
+              "equal it (so unused-cell faults must be accepted and every isolated class violation rejected). The family includes "
+              "circuits whose single region fills every usable row and cells assigned as fractions with deferred inversion "
+              "(incl. an inverse of zero, which must evaluate to zero for the real prover as for MockProver)."),
         design_ref="DESIGN.md 4/C02",
         note=("Single-phase shapes with small values so exact integer semantics equals field semantics; lookup "
               "product rules cannot be violated in isolation through an honest prover (prover refusal counts as "
